@@ -122,6 +122,7 @@ _PATTERN_USERS = {
     "strict_rule": {"C16"},
     "neg_epoch_ignored": {"C16", "C11", "C07"},
     "walk_tmp_test_before_stat": {"C11", "C13"},
+    "process_entry_order": {"C11", "C13"},
 }
 
 
